@@ -1,6 +1,6 @@
 """C05 - collection deltas cohere with collection values at every tick (mirror log vs shadow model + self-coherence)."""
 from __future__ import annotations
-from .runner import Result, Violation
+from .runner import Result, Violation, scaled
 from .gen_coll import gen_coll_case, parse_dumps, write_log
 from .collmodel import Node, SHAPES, dump_value, _key
 
@@ -112,7 +112,7 @@ def generate(rng, tier, seed):
 
 
 def _generate(rng, tier, seed):
-    n = 300 if tier == "quick" else 5000
+    n = scaled(300 if tier == "quick" else 5000)
     cases = []
     for k in range(n):
         cases.append(gen_coll_case(rng, f"c05_{seed}_{k}", big=(k % 25 == 24)))
